@@ -218,7 +218,15 @@ self.variables = ElementsTuple(expressions=None, indices=_IDX, names=_NAMES)
 """)
     ok = True if bv is not None else None
     ctx.add('C01.R5', 'IdManager.prepare:variables', ok, prep, 'variableId = position of the column in database.data' if ok else 'shape not recognised - expected: indices = {name: position} over database.data.columns.to_list(), stored with those names', 'variables')
-    return {a: '|'.join(sorted(t)) for a, t in id_attrs.items()}
+    out = _IdAttrs({a: '|'.join(sorted(t)) for a, t in id_attrs.items()})
+    out.per_class = {cn: {a: '|'.join(sorted(t)) for a, t in tabs.items()} for cn, tabs in per_class.items()}
+    return out
+
+
+class _IdAttrs(dict):
+    """attribute -> table(s), over all leaf classes; per_class: the same for the attributes each class fills itself (two classes may
+    give the same name to ids of different tables)"""
+    per_class: dict[str, dict[str, str]] = {}
 
 
 # --------------------------------------------------------------------------
@@ -304,8 +312,10 @@ def _interp(body: list[ast.stmt], atoms: dict[str, str], oracle) -> tuple:
         return ('expr', unparse(canon(e)))
 
     def test(e: ast.expr) -> bool:
-        if isinstance(e, ast.Compare) and len(e.ops) == 1:
-            return oracle(val(e.left), type(e.ops[0]).__name__, val(e.comparators[0]), unparse(e))
+        if isinstance(e, ast.Compare):
+            # a chained comparison `a op b op c` is `a op b and b op c` (the operands are values, read once)
+            terms = [e.left] + list(e.comparators)
+            return all(oracle(val(l_), type(op_).__name__, val(r_), unparse(e)) for l_, op_, r_ in zip(terms, e.ops, terms[1:]))
         if isinstance(e, ast.BoolOp):
             vs = [test(v) for v in e.values]
             return all(vs) if isinstance(e.op, ast.And) else any(vs)
@@ -341,7 +351,10 @@ def _interp(body: list[ast.stmt], atoms: dict[str, str], oracle) -> tuple:
             raise Unknown(unparse(st)[:60])
         return None
 
-    r = run(body)
+    try:
+        r = run(body)
+    except RecursionError:
+        raise Unknown('expression too deep for the interpreter') from None
     if r is None:
         return ('ret', ('const', None))
     return r
@@ -721,7 +734,28 @@ def _tuple_fields(prog: Program, c: ClassInfo) -> dict[str, list[str]]:
     return out
 
 
-_FIELD = re.compile(r'\{(CLS|ID|LEN|IDX|VAL|FMT)(?::([^{}]*(?:\{[^{}]*\}[^{}]*)*))?\}')
+_FIELD_HEAD = re.compile(r'\{(CLS|ID|LEN|IDX|VAL|FMT)(?=[:}])')
+
+
+def _fields_of(tpl: str) -> list[tuple[str, str]]:
+    """(kind, reference) of every field of a rendered template; the reference extends to the brace that closes the field, whatever
+    braces it contains (an f-string with doubled braces).  A field whose closing brace is not found is returned with what follows it as
+    reference, so that it is never dropped silently."""
+    out = []
+    i = 0
+    while i < len(tpl):
+        m = _FIELD_HEAD.match(tpl, i)
+        if m is None:
+            i += 1
+            continue
+        k, depth = m.end(), 1
+        while k < len(tpl) and depth:
+            depth += (tpl[k] == '{') - (tpl[k] == '}')
+            k += 1
+        body = tpl[m.end():k - 1] if not depth else tpl[m.end():]
+        out.append((m.group(1), body[1:] if body.startswith(':') else body))
+        i = k
+    return out
 
 
 def _record_verdict(got: str, want: str, attr_roles: dict[str, set[str]] | None = None, children_known: bool = False) -> tuple[bool | None, str]:
@@ -752,7 +786,7 @@ def _record_verdict(got: str, want: str, attr_roles: dict[str, set[str]] | None 
 
     def field_refs(tpl: str) -> set[str]:
         out = set()
-        for k, r in _FIELD.findall(tpl):
+        for k, r in _fields_of(tpl):
             if k == 'FMT':
                 out.add('FMT:' + r)
             elif k == 'IDX':
@@ -795,7 +829,6 @@ POSITIVE: list[tuple[str, str, str]] = [
      'a case in which the interpreter folds the result to a definite value that is not the one of the table; a result it cannot fold leaves the verdict open (settle)'),
     ('C01.R6', r':(unavailable|chosen-availability|denominator)$', 'LogLogit.get_value matched with holes: a constant return that is not a log-probability; an availability test that is inverted, reads another '
      'alternative or the utility; the shift or the logarithm with the other sign.  Any other spelling leaves the verdict open'),
-    ('C01.R5', r'^(class|enum|table|leaf):', 'leaf-id table: a class is tied to another enum constant / table / id attribute'),
 ]
 
 
@@ -827,11 +860,29 @@ def run(ctx: Ctx) -> None:
     expr_classes = [E] + prog.subclasses(E)
     WRITERS = ('set_id_manager', '__init__')
 
+    def private(name: str) -> bool:
+        """`_x` and the name-mangled `__x` are private helpers; `__x__` is a special method"""
+        return name.startswith('_') and not (name.startswith('__') and name.endswith('__'))
+
+    def stores_manager(n: ast.AST) -> bool:
+        """the statement binds self.id_manager: plain, chained, tuple-target, annotated or augmented store"""
+        def flat(t):
+            if isinstance(t, (ast.Tuple, ast.List)):
+                for e_ in t.elts:
+                    yield from flat(e_)
+            elif isinstance(t, ast.Starred):
+                yield from flat(t.value)
+            else:
+                yield t
+
+        tg = n.targets if isinstance(n, ast.Assign) else [n.target] if isinstance(n, (ast.AnnAssign, ast.AugAssign)) and getattr(n, 'value', None) is not None else []
+        return any(unparse(x) == 'self.id_manager' for t in tg for x in flat(t))
+
     def writer_part(c_: ClassInfo, m_: FuncInfo, seen: frozenset = frozenset()) -> bool | None:
         """a private method is part of set_id_manager / the constructor when every call of it in the package is `self.<name>(...)` written in
         set_id_manager / __init__ of an expression class (or in another such private part).  True: it is; False: it is called from another
         method (named in the message); None: nothing calls it, or a call is not followed"""
-        if not m_.name.startswith('_') or m_.name.startswith('__') or m_.name in seen:
+        if not private(m_.name) or m_.name in seen:
             return None
         sites = prog.callers_of(m_.name)
         if not sites:
@@ -841,9 +892,11 @@ def run(ctx: Ctx) -> None:
             recv_self = isinstance(call_.func, ast.Attribute) and unparse(call_.func.value) in ('self', 'super()')
             if g_.cls is None or g_.cls not in expr_classes or not recv_self:
                 verdict = None  # a call on another object, or from outside the expression classes: not followed
+            elif m_.name.startswith('__') and g_.cls is not c_:
+                verdict = None  # a name-mangled helper is reached only from the class that defines it: another `__x` of another class
             elif g_.name in WRITERS:
                 continue
-            elif g_.name.startswith('_') and not g_.name.startswith('__'):
+            elif private(g_.name):
                 sub = writer_part(g_.cls, g_, seen | {m_.name})
                 if sub is False:
                     return False
@@ -858,11 +911,11 @@ def run(ctx: Ctx) -> None:
             if getattr(m_.node, '_verif_transparent', False):
                 continue  # a new helper whose calls were all expanded in place: its statements are examined where it is called
             for a_ in walk_no_nested(m_.node):
-                if isinstance(a_, ast.Assign) and any(unparse(t_) == 'self.id_manager' for t_ in a_.targets):
+                if stores_manager(a_):
                     okw: bool | None = m_.name in WRITERS
                     if not okw:
                         okw = writer_part(c_, m_)
-                        if okw is None and not (m_.name.startswith('_') and not m_.name.startswith('__')):
+                        if okw is None and not private(m_.name):
                             okw = False
                     n_w += bool(okw)
                     ctx.add('C01.R10', f'{c_.name}.{m_.name}:self.id_manager', okw, (m_.file, a_.lineno),
@@ -875,10 +928,32 @@ def run(ctx: Ctx) -> None:
     # ---- R1
     from ..pattern import has as _has
 
+    def class_named(fn: ast.expr, fnode: ast.AST) -> ClassInfo | None:
+        """the expression class a callee denotes inside the method `fnode` of Expression: a name bound by an import written in the method
+        is the imported symbol (`from m import Minus as Plus` makes Plus the class Minus), a name bound in any other way in the method is
+        not followed, any other name / dotted name is resolved through the imports of the module"""
+        if isinstance(fn, ast.Name):
+            binders = [n for n in ast.walk(fnode) if (isinstance(n, (ast.Import, ast.ImportFrom)) and any((a.asname or a.name.split('.')[0]) == fn.id for a in n.names))
+                       or (isinstance(n, ast.Name) and n.id == fn.id and not isinstance(n.ctx, ast.Load)) or (isinstance(n, ast.arg) and n.arg == fn.id)
+                       or (isinstance(n, (ast.FunctionDef, ast.ClassDef)) and n is not fnode and n.name == fn.id)]
+            if binders:
+                if not all(isinstance(n, ast.ImportFrom) for n in binders):
+                    return None
+                real = {a.name for n in binders for a in n.names if (a.asname or a.name) == fn.id}
+                return next((c_ for c_ in expr_classes if c_.name in real), None) if len(real) == 1 else None
+            r_ = prog.resolve_name(E.module, fn.id)
+            return r_[1] if r_ is not None and r_[0] == 'class' and r_[1] in expr_classes else None
+        if isinstance(fn, ast.Attribute):
+            r_ = prog.resolve_expr(E.module, fn)
+            if r_ is not None:
+                return r_[1] if r_[0] == 'class' and r_[1] in expr_classes else None
+            return next((c_ for c_ in expr_classes if c_.name == fn.attr), None)
+        return None
+
     def ctor_roles(call: ast.Call, fnode: ast.AST) -> tuple | None:
         """(class, [text of the argument given to each constructor parameter, in parameter order]) for the construction of an expression
         class, keyword and positional arguments alike, locals resolved; None when the call is anything else"""
-        cls_ = next((c_ for c_ in expr_classes if c_.name == call_name(call) and isinstance(call.func, (ast.Name, ast.Attribute))), None)
+        cls_ = class_named(call.func, fnode)
         init_ = cls_.resolve('__init__') if cls_ is not None else None
         if init_ is None or any(isinstance(x, ast.Starred) for x in call.args) or any(k.arg is None for k in call.keywords):
             return None
@@ -908,7 +983,13 @@ def run(ctx: Ctx) -> None:
         other_ = f_.positional_params()[1] if len(f_.positional_params()) > 1 else None
         built_: list = []
         delegated: list[bool] = []
+        # a method that binds `self` or its operand again: what the names stand for at a return is not followed
+        rebound = sorted({n.id for n in ast.walk(f_.node) if isinstance(n, ast.Name) and not isinstance(n.ctx, ast.Load) and n.id in ('self', other_)}
+                         | {n.target.id for n in ast.walk(f_.node) if isinstance(n, ast.NamedExpr) and n.target.id in ('self', other_)})
         for r_ in [n for n in walk_no_nested(f_.node) if isinstance(n, ast.Return)]:
+            if rebound:
+                built_.append(('?', f'{unparse(r_.value) if r_.value is not None else "None"} [{", ".join(rebound)} bound again in the method]'))
+                continue
             v_ = inline_locals(f_.node, r_.value) if r_.value is not None else None
             if isinstance(v_, ast.Call) and isinstance(v_.func, ast.Attribute) and unparse(v_.func.value) == 'self' and v_.func.attr in E.methods and v_.func.attr != dunder \
                     and v_.func.attr in OPERATOR_TABLE and depth < 3 and not any(isinstance(x, ast.Starred) for x in v_.args) and all(k.arg for k in v_.keywords):
@@ -960,8 +1041,10 @@ def run(ctx: Ctx) -> None:
             ok = ('Power', ['self', other]) in built and all(b == ('Power', ['self', other]) or pc(b) for b in built)
             understood = bool(built) and all(b == ('Power', ['self', other]) or pc(b) or wrong(b) for b in built)
         else:
+            # every return builds the class of the table with the operands in the order of the table (a fast path and a general path
+            # may both return); a return that builds another class / the operands in another order is the contradiction
             want = [other, 'self'] if reflected else ['self', other]
-            ok = built == [(cname, want)]
+            ok = bool(built) and all(b == (cname, want) for b in built)
         ctx.add('C01.R1', f'Expression.{dunder}', ok if (ok or understood) else None, f,
                 f'{dunder} builds ' + ', '.join(f'{b[0]}({", ".join(b[1]) if isinstance(b[1], list) else b[1]})' for b in built) + ('' if ok else f'; the data model requires {cname}({"other, self" if reflected else "self, other"})')
                 + ('' if ok or understood else ' (what is returned is not the construction of an expression class from self and the operand: not followed)'),
@@ -1008,7 +1091,9 @@ def run(ctx: Ctx) -> None:
                 if it_[0] != 'item':
                     break
                 first_children.append(render_items([it_], ar.attr_map()))
-            t = RecordTemplate(prog, gs, ar.attr_map(), id_attrs, children=first_children, tuple_fields=_tuple_fields(prog, c))
+            # `self.<id attribute>` of a leaf is the table its own set_id_manager reads; the attributes of other objects keep the union
+            own_ids = next((id_attrs.per_class[k_.name] for k_ in c.mro() if k_.name in getattr(id_attrs, 'per_class', {})), {})
+            t = RecordTemplate(prog, gs, ar.attr_map(), {**id_attrs, **own_ids}, children=first_children, tuple_fields=_tuple_fields(prog, c))
             got = t.render()
             own_last = t.own_last
             # R4 coverage on the level of the base attribute / parameter
@@ -1020,10 +1105,19 @@ def run(ctx: Ctx) -> None:
                 return re.fullmatch(r'@\d+(?:#\d+)?|self\.\w+', x) is not None or x == CHILDREN
 
             covered = set()
+            em_loops: dict[str, set[str]] = {}  # iterated text of an emission loop -> what is emitted in it
             emitted_open = []  # emitted signatures whose owner is not resolved to a parameter / attribute
+            PART = r'(@\d+(?:#\d+)?|self\.\w+)(?:\.values\(\)|\.items\(\))?'
             for e in t.emitted:
                 m = re.match(r'⟦(.*)⟧(.*)', e)
                 if m:
+                    em_loops.setdefault(m.group(1), set()).add(m.group(2))
+                    parts = m.group(1).split(' + ')
+                    if len(parts) > 1 and all(re.fullmatch(PART, x) for x in parts):
+                        # one loop over the concatenation of several collections: the elements of each of them
+                        for x in parts:
+                            covered.add(base(x) + ':' + m.group(2))
+                        continue
                     covered.add(base(m.group(1)) + ':' + m.group(2) if m.group(1) != CHILDREN else CHILDREN)
                     if not resolved(base(m.group(1))):
                         emitted_open.append(e)
@@ -1031,16 +1125,24 @@ def run(ctx: Ctx) -> None:
                     covered.add(base(e))
                     if not resolved(base(e)):
                         emitted_open.append(e)
-            child_bases = {base(x) for x in re.findall(r'@\d+(?:#\d+)?|self\.\w+', ar.children_template())}
+            # (the statements on the list of children that are not followed establish nothing about what the list holds)
+            child_bases = {base(x) for x in re.findall(r'@\d+(?:#\d+)?|self\.\w+', re.sub(r'\?⟨[^⟩]*⟩', '', ar.children_template()))}
+
+            def elements_emitted(s_: str) -> bool:
+                """the signature of every element of the collection s_ is emitted"""
+                return (CHILDREN in covered and (s_ in child_bases or s_ == CHILDREN)) or any(cv.startswith(s_ + ':') for cv in covered)
+
             missing = []
             unresolved = []
             # loop-variable refs are attributed to the iterated container
             txt = got
             loops = re.findall(r'⟦for ([^ ]+) in ([^:]+): ([^⟧]*)⟧', txt)
             loopsrc = {}
+            loopit = {}
             for vars_, it, _ in loops:
                 for v in vars_.split(','):
                     loopsrc[v] = base(it)
+                    loopit[v] = it
             for ref in t.id_refs():
                 b = base(ref)
                 if b.startswith('$'):
@@ -1048,10 +1150,17 @@ def run(ctx: Ctx) -> None:
                     srcs = {src}
                     if src.startswith('self.') and src not in child_bases and ar.sources.get(src[5:]):
                         srcs = set(ar.sources[src[5:]])
-                    okc = (CHILDREN in covered and (srcs <= child_bases or src == CHILDREN)) or any(cv.startswith(src + ':') for cv in covered)
+                    okc = all(elements_emitted(s_) for s_ in srcs)
+                    same = em_loops.get(loopit.get(b, ''))
+                    if okc and same and CHILDREN not in covered and ref == b and all(re.fullmatch(r'\$\d+', x) for x in same) and b not in same \
+                            and not any(cv.startswith(src + ':') for it_, refs_ in em_loops.items() if it_ != loopit[b] for cv in [base(it_) + ':']):
+                        # the signatures are emitted in a loop written like the loop of the record (same collection, same variables), and the
+                        # variable whose id is written is not one of those whose signature is emitted
+                        okc = False
                     known = resolved(src)
                 else:
-                    okc = b in covered or (CHILDREN in covered and b in child_bases)
+                    # the node itself, or (for an entry `b[key]` of a collection) every element of the collection
+                    okc = b in covered or (CHILDREN in covered and b in child_bases) or (ref.startswith(b + '[') and elements_emitted(b))
                     known = resolved(b)
                 if not okc:
                     (missing if known else unresolved).append(ref)
@@ -1104,7 +1213,7 @@ def run(ctx: Ctx) -> None:
     blu = prog.find_class('bioLinearUtility', 'expressions')
     ar = AttrRoles(prog, blu)
     init = blu.methods['__init__']
-    lot = [unparse(n.value) for n in walk_no_nested(init.node) if isinstance(n, ast.Assign) and unparse(n.targets[0]) == 'self.listOfTerms']
+    lot = [unparse(inline_locals(init.node, n.value)) for n in walk_no_nested(init.node) if isinstance(n, ast.Assign) and unparse(n.targets[0]) == 'self.listOfTerms']
     ok = ar.roles.get('betas') == {'@0#0'} and ar.roles.get('variables') == {'@0#1'} and lot == ['list(zip(self.betas, self.variables))'] and ar.children_template() == '*@0#0 + @0#1'
     ctx.add('C01.R2', 'bioLinearUtility.__init__:terms', ok, init, 'terms are (beta, variable) pairs in the order given; children = betas + variables' if ok else f'term plumbing of bioLinearUtility changed: betas={ar.roles.get("betas")}, variables={ar.roles.get("variables")}, listOfTerms={lot}, children={ar.children_template()}', str(lot))
     # LogLogit: av built for the keys of util when None; av keyed as given
@@ -1123,7 +1232,9 @@ else:
 """)
     ctx.add('C01.R2', 'LogLogit.__init__:av', ok, init, 'av=None means availability 1 for every key of util; otherwise av is kept key by key' if ok else 'availability plumbing of LogLogit changed', 'av')
     arl = AttrRoles(prog, ll)
-    okc = arl.children_template() == '@2 ; ⟦for $0,$1 in @0.items(): $1⟧ ; ⟦for $0,$1 in self.av.items(): $1⟧'
+    # the values of a dictionary spliced in are the loop over its items that appends each value
+    lct = re.sub(r'\*((?:@\d+|self\.\w+))\.values\(\)(?= ;|$)', lambda m_: f'⟦for $0,$1 in {m_.group(1)}.items(): $1⟧', arl.children_template())
+    okc = lct == '@2 ; ⟦for $0,$1 in @0.items(): $1⟧ ; ⟦for $0,$1 in self.av.items(): $1⟧'
     ctx.add('C01.R2', 'LogLogit.__init__:children', okc, init, 'children = choice, utilities, availabilities' if okc else f'children of LogLogit: {arl.children_template()}', arl.children_template())
     fc = prog.find_class('_bioLogLogitFullChoiceSet', 'expressions')
     fi = fc.methods['__init__']
